@@ -207,6 +207,10 @@ class Native:
         for exc, src in (con.get("raises") or {}).items():
             code, _ = self.compile(src, cname)
             raise_expect[exc] = bool(ev(code))
+        must_raise = {}
+        for exc, src in (con.get("raises_if") or {}).items():
+            code, _ = self.compile(src, cname)
+            must_raise[exc] = bool(ev(code))
         ens = []
         for i, e in enumerate(con.get("ensures", [])):
             name, src = e if isinstance(e, tuple) else (str(i), e)
@@ -229,6 +233,12 @@ class Native:
         except Exception as e:      # noqa
             outcome = type(e).__name__
             value = e
+        if outcome != "return" and outcome in must_raise:
+            return (outcome, value)
+        if outcome == "return":
+            for exc, expected in must_raise.items():
+                if expected:
+                    raise ContractViolation(key, "raises_if[%s]/violation_is_rejected" % exc, "returned normally")
         if outcome != "return":
             if outcome not in raise_expect:
                 raise ContractViolation(key, "raises[%s]/unexpected" % outcome, repr(value))
@@ -256,6 +266,7 @@ def real_function(uni, key):
     rel = uni.contracts[key].get("module") or uni.modules.get(cname)
     modname = rel[:-3].replace("/", ".")
     mod = importlib.import_module(modname)
+    cname = uni.class_alias.get(cname, cname)
     if cname:
         cls = getattr(mod, cname)
         if mname.startswith("__") and not mname.endswith("__"):
